@@ -44,7 +44,17 @@ fn handler(world: &Arc<Mutex<World>>) -> Handler {
             (Some(c), m) if m > 0 => c.lock().unwrap().choose(m + 1),
             _ => 0,
         };
-        let r = if name == "bad" { Err(anyhow::Error::new(Injected(0))) } else { Ok(fn_value(name, &arg).to_value()) };
+        let r = if name == "bad" {
+            Err(anyhow::Error::new(Injected(0)))
+        } else if name == "conv" {
+            // a user function that converts its parameter the way the documentation suggests
+            match std::collections::HashMap::<String, i64>::try_from(param.clone()) {
+                Ok(m) => Ok(Value::Int(m.values().map(|v| *v as i128).sum())),
+                Err(e) => Err(anyhow::Error::new(e)),
+            }
+        } else {
+            Ok(fn_value(name, &arg).to_value())
+        };
         (r, n)
     })
 }
@@ -86,6 +96,16 @@ fn families() -> Vec<Family> {
             rules: vec![":status.404", "#api:status[\"404\"]", ":status.0", "#api:status[\"0\"]", ":codes.0", "#api:codes[\"0\"]", "if strict then :limits.eu.max else none", "#api:(limits.eu)[\"max\"]", ":limits.eu.max", ":limit * i2", "x.0", "#api:x[\"0\"]"],
             inputs: vec![RV::map(&[("strict", RV::Bool(true)), ("x", RV::List(vec![RV::Int(5)]))]), RV::map(&[("strict", RV::Bool(false)), ("x", RV::map(&[("0", RV::Int(6))]))])],
         },
+        // a function converting a map parameter in which several entries do not convert: which error
+        // comes back must not vary from run to run
+        Family {
+            name: "conversion-errors",
+            rules: vec!["conv(m)", "conv(good)", "[conv(good), conv(m)]"],
+            inputs: vec![
+                RV::map(&[("m", RV::map(&[("a", RV::str("x")), ("b", RV::None), ("c", RV::float(1.5)), ("d", RV::List(vec![])), ("e", RV::Bool(true)), ("f", RV::str("y")), ("ok", RV::Int(1))])), ("good", RV::map(&[("p", RV::Int(1)), ("q", RV::Int(2))]))]),
+                RV::map(&[("m", RV::map(&[("k1", RV::Int(i64::MAX as i128 + 1)), ("k2", RV::str("2")), ("k3", RV::map(&[])), ("k4", RV::None), ("k5", RV::float(0.5)), ("k6", RV::Bool(false))])), ("good", RV::map(&[]))]),
+            ],
+        },
         // both interleaved evaluations are suspended 150 levels deep (per-thread bookkeeping of
         // nesting adds up across suspended evaluations)
         Family { name: "deep-interleave", rules: vec![DEEP_RULE.as_str(), "c(other)"], inputs: vec![in1, in2] },
@@ -102,7 +122,7 @@ fn build(rules: &[String], world: &Arc<Mutex<World>>) -> Result<RuleSet, String>
         let e = rule_expr(text)?;
         b = b.with_rule(Rule::new(format!("r{i}"), BTreeMap::new(), e)).map_err(|e| e.to_string())?;
     }
-    for (n, c) in [("c", true), ("n", false), ("bad", true)] {
+    for (n, c) in [("c", true), ("n", false), ("bad", true), ("conv", false)] {
         b = b.with_function(probe(n, c, &h)).map_err(|e| e.to_string())?;
     }
     Ok(b.build())
